@@ -155,8 +155,10 @@ public:
     }
 
     PointT barycenter(EdgeHandle _eh) const {
-        return PointT(0.5 * vertex(TopologyKernelT::edge(_eh).from_vertex()) +
-                      0.5 * vertex(TopologyKernelT::edge(_eh).to_vertex()));
+        // sum first, then halve: halving each end point first truncates twice
+        // for integer position types
+        return PointT((vertex(TopologyKernelT::edge(_eh).from_vertex()) +
+                       vertex(TopologyKernelT::edge(_eh).to_vertex())) / 2);
     }
 
     PointT barycenter(FaceHandle _fh) const {
